@@ -829,9 +829,14 @@ class Task:
         _check_no_nones_in_list(value, 'predecessors')
 
         parents = self.all_parents
+        children = self.all_children
         for v in value:
+            if v is self:
+                raise RuntimeError(f"Task {self.id} can't be a predecessor of itself")
             if v in parents:
                 raise RuntimeError("Can't set parent as predecessor")
+            if v in children:
+                raise RuntimeError("Can't set child as predecessor")
 
         for v in value:
             if self in v.all_predecessors:
@@ -875,9 +880,14 @@ class Task:
         _check_no_nones_in_list(value, 'successors')
 
         parents = self.all_parents
+        children = self.all_children
         for v in value:
+            if v is self:
+                raise RuntimeError(f"Task {self.id} can't be a successor of itself")
             if v in parents:
                 raise RuntimeError("Can't set parent as successor")
+            if v in children:
+                raise RuntimeError("Can't set child as successor")
 
         for v in value:
             if self in v.all_successors:
